@@ -205,7 +205,7 @@ def oracle_worlds(case: dict) -> Outcome:
     case["steps"] = case["steps"][:2]  # the layout is fixed at construction; two steps suffice to exercise the buffers
     out, info = dc.run_case(case, "C14.d.world", collect_layout=True)
     pb = info.get("pb")
-    if pb is None or out.failures:
+    if pb is None or out.failures or any(r is None for r in info.get("results") or [None]):
         return out
     results = info["results"]
     G = pb.group_size
